@@ -309,11 +309,12 @@ def check(ctx):
     # the bytes of a row are fixed inside write_row, before the row goes downstream
     from rules import observers as _obs
     _obs.writer_keeps_no_row(ctx)
+    _obs.json_object_is_row(ctx)
     run.rule('R16o', 'COLUMN-ORDER: a format that writes each row as a JSON object is read back column-wise in sorted key order '
                      '(LF2) and paired by position with the stamped schema, so it must stamp the fields in sorted order, write '
                      'arrays, or otherwise normalise the order')
-    wt = j.methods.get('write_transformed_row')
-    dumps = [n for n in ast.walk(wt.node) if isinstance(n, ast.Call) and res.external_name(n) == 'json.dumps']
+    wt = ctx.N(j.methods.get('write_transformed_row'))        # (helpers inlined; what is dumped is decided by R16j above)
+    dumps = [n for n in ast.walk(wt.node) if isinstance(n, ast.Call) and u(n.func) in ('json.dumps', 'json.dump')]
     writes_object = bool(dumps) and pseudo(dumps[0].args[0]) == wt.params[1]
     if writes_object:
         pr = j.methods.get('prepare_resource')
